@@ -33,6 +33,10 @@ def answers() -> List[Dict[str, Any]]:
     for v in U:
         out.append({"kind": "version", "v": v})
     out.append({"kind": "version-extras", "v": REAL[1]})
+    # strings that are NOT offered but are textually related to the offered list
+    for frag in ("empty", "year", "year-month", "month-day", "first+space", "first+newline", "space+first",
+                 "first-two-joined", "comma-space", "last-year"):
+        out.append({"kind": "version-fragment", "frag": frag})
     for m in ("missing", "null", "int", "list", "result-list", "result-string", "no-serverinfo", "empty-result"):
         out.append({"kind": "malformed", "m": m})
     for c in ERROR_CODES:
@@ -55,9 +59,18 @@ def lists(maxlen: int) -> List[List[str]]:
     return out
 
 
-def build_answer(a: Dict[str, Any], rid: Any) -> Any:
+def fragment(frag: str, sup: List[str]) -> str:
+    first, last = sup[0], sup[-1]
+    return {"empty": "", "year": first[:4], "year-month": first[:7], "month-day": first[5:], "first+space": first + " ",
+            "first+newline": first + "\n", "space+first": " " + first, "first-two-joined": ", ".join(sup[:2]),
+            "comma-space": ", ", "last-year": last[:4]}[frag]
+
+
+def build_answer(a: Dict[str, Any], rid: Any, sup: List[str] = None) -> Any:
     j = {"jsonrpc": "2.0", "id": rid}
     k = a["kind"]
+    if k == "version-fragment":
+        return {**j, "result": {"protocolVersion": fragment(a["frag"], sup), **CAPS}}
     if k == "version":
         return {**j, "result": {"protocolVersion": a["v"], **CAPS}}
     if k == "version-extras":
@@ -89,10 +102,12 @@ def build_answer(a: Dict[str, Any], rid: Any) -> Any:
 class RecordingSend:
     def __init__(self, inner, log, loop):
         self._inner, self._log, self._loop = inner, log, loop
+        self.completed = []
 
     async def send(self, item):
         self._log.append((self._loop.time(), item))
         await self._inner.send(item)
+        self.completed.append(item)
 
     def send_nowait(self, item):
         self._log.append((self._loop.time(), item))
@@ -132,7 +147,7 @@ def run_one(ctl: explorer.Ctl, cfg: Dict[str, Any]) -> Dict[str, Any]:
         if cfg["distractor"]:
             st["send_r"].send_nowait(parse_message(
                 {"jsonrpc": "2.0", "method": "notifications/message", "params": {"data": "hello"}}))
-        wire = build_answer(a, rid)
+        wire = build_answer(a, rid, sup)
         if wire is None:
             return
         if when == "now":
@@ -143,10 +158,24 @@ def run_one(ctl: explorer.Ctl, cfg: Dict[str, Any]) -> Dict[str, Any]:
             lp.env_call_at(T - EPS, 0, deliver, wire)
 
     async def main():
-        send_w, recv_w = anyio.create_memory_object_stream(math.inf)
+        stall = cfg.get("write") == "unbuffered-stall"
+        send_w, recv_w = anyio.create_memory_object_stream(0 if stall else math.inf)
         send_r, recv_r = anyio.create_memory_object_stream(math.inf)
         st["send_r"] = send_r
         w = RecordingSend(send_w, writes, loop)
+        st["w"] = w
+        if stall:
+            # the peer takes the initialize request, then does not read again for longer than the caller's timeout
+            async def slow_consumer():
+                import asyncio as _a
+                n = 0
+                async for m in recv_w:
+                    n += 1
+                    if n == 1:
+                        await _a.sleep(cfg.get("stall", 2.5 * T))
+
+            import asyncio as _asyncio
+            st["consumer"] = _asyncio.ensure_future(slow_consumer())
         kw = {"timeout": T, "supported_versions": list(sup), "preferred_version": pref}
         try:
             if client is not None:
@@ -203,15 +232,21 @@ def run_one(ctl: explorer.Ctl, cfg: Dict[str, Any]) -> Dict[str, Any]:
     if others:
         bad("unexpected-write", f"{others[:2]}")
 
-    success_expected = a["kind"] in ("version", "version-extras") and a["v"] in sup
+    if a["kind"] == "version-fragment":
+        a = dict(a, v=fragment(a["frag"], sup))
+    success_expected = a["kind"] in ("version", "version-extras", "version-fragment") and a["v"] in sup
     if success_expected:
         if okind != "ok":
             bad("valid-answer-rejected", "server answered with an offered version but initialization failed")
         else:
             if oval != a["v"]:
                 bad("wrong-version-returned", f"returned {oval!r}, server answered {a['v']!r}")
+            handed_over = [m for m in st["w"].completed if getattr(m, "method", None) == "notifications/initialized"]
             if len(notes) != 1:
                 bad("initialized-count", f"{len(notes)} initialized notifications on success")
+            elif len(handed_over) != 1:
+                bad("initialized-not-delivered", "initialization reported success but the initialized notification was never "
+                                                 "handed to the write stream (send abandoned)", write=cfg.get("write"))
             else:
                 tn = notes[0][0]
                 if st["t_answer"] is None or tn < st["t_answer"] - 1e-12 or tn > t_done + 1e-12:
@@ -235,7 +270,8 @@ def run_one(ctl: explorer.Ctl, cfg: Dict[str, Any]) -> Dict[str, Any]:
             bad("initialized-sent-on-failure", f"{len(notes)} initialized notifications although initialization failed ({okind})")
         if client is not None and client.get_batching_info().get("protocol_version") is not None:
             bad("tracked-client-set-on-failure", f"{client.get_batching_info()}")
-        if a["kind"].startswith("version") and okind != "version-mismatch":
+        if a["kind"].startswith("version") and okind != "version-mismatch" and not (
+                cfg.get("write") == "unbuffered-stall" and okind == "timeout"):
             bad("wrong-failure-kind", "an unoffered version must raise VersionMismatchError")
         if a["kind"] == "silence" and okind != "timeout":
             bad("wrong-failure-kind", "silence must end in TimeoutError", answer="silence")
@@ -268,6 +304,12 @@ def run(tier: str, only=None) -> core.Result:
                     for d in (False, True):
                         for tr in (False, True):
                             cfgs.append({"list": sup, "pref": pref, "answer": ai, "when": when, "distractor": d, "tracked": tr})
+                # slow peer: unbuffered write stream whose consumer stalls after taking the request
+                if len(sup) == 1 and ANSWERS[ai]["kind"] in ("version", "version-fragment"):
+                    for stall in (0.5 * T, 2.5 * T):
+                        for tr in (False, True):
+                            cfgs.append({"list": sup, "pref": pref, "answer": ai, "when": "now", "distractor": False,
+                                         "tracked": tr, "write": "unbuffered-stall", "stall": stall})
     out = explorer.explore(RUN, cfgs)
     sched.absorb(res, f"grid-lists<={2 if tier == 'quick' else 3}", RUN, out, cfgs)
     res.coverage["exhaustive"] = True
